@@ -88,6 +88,26 @@ T = {
  'C20b': ('C20', "skip_then_retry_until around a parser containing another recovery/validate, input on which the retry succeeds with emissions forever", ""),
  'C20c': ('C20', "Pratt: a run of ~2000+ prefix operators (operand closure no longer goes through the stack-growth guard)", "initially MISSED; caught after the deep part (12 nesting/chain families on 1 MiB-stack threads) was added"),
  'C20d': ('C20', "into_iter().enumerate() consumed by collect/count/fold in a debug build: NONCONSUMPTION_IS_OK lost, false 'making no progress' panic", "initially MISSED; caught after the iterable-parser matrix (sources x adapters x drivers) was added"),
+ 'C01e': ('C01', "a.and_is(b) where both succeed and b consumes strictly more input than a (any().and_is(just(\"ab\"))): the reposition after the lookahead is skipped (guard `<` instead of `!=`)", ""),
+ 'C02e': ('C02', "an explicit .clone() of a separated_by(..).allow_trailing() list (or of a combinator wrapping it) and an input with a trailing separator: the hand-written Clone impl, rewritten with struct-update syntax, drops allow_trailing", "initially MISSED by C02 (nothing there cloned an iterable parser); caught after every repetition / separated list was also driven through an explicit .clone() of itself; C13's clone sweep caught it from the start"),
+ 'C03e': ('C03', "separated_by(..).allow_leading() with a separator that can fail after consuming (multi-token, padded, custom) and an input starting with a partial separator followed by a valid item: the failed leading separator is not rewound, tokens are matched by nothing", "same area as C02a/C05d, different edit"),
+ 'C04e': ('C04', "separated_by with a finite at_most/exactly used as a unit parser (to_slice / ignored / then_ignore, no collect) on an input where the n-th item is followed by another separator: the hand-rolled unit loop swallows that separator", "initially MISSED (the unit-vs-collect pairs had no bounds); caught after the pairs got bounds, all flag combinations and a visible remainder"),
+ 'C05e': ('C05', "not() around a parser that emits (validate / recovery) and then fails: Not repositions with rewind_input (keeps emissions) instead of rewind", ""),
+ 'C06e': ('C06', "nested_in after an earlier alternative that got past the group token and failed further along: NestedIn no longer shelters / re-prioritises the pending error, with_input overwrites it", ""),
+ 'C07e': ('C07', "Input::map / Stream::map / IterInput with an end-of-input span beyond the last token, and an explicit end() inside a captured parser: next() at end of input clears the remembered last-token end, the capture widens to the end-of-input span", ""),
+ 'C08e': ('C08', "skip_then_retry_until giving up because a *compound* `until` (choice / or / or_not.then) matched and left a pending error of its own at or beyond p's failure: the original error is merged (add_alt_err) instead of restored", ""),
+ 'C09e': ('C09', "a right-associative and a left-associative infix operator with the same binding power, the left-associative one inside the right operand (a*b+c): right(x) becomes (2x+1, 2x+1)", ""),
+ 'C10e': ('C10', "mapped (token, span) input whose end-of-input span lies beyond the last token: a failure at the end of the input after >= 1 consumed token is reported at the last token's end instead of the end-of-input span", "initially MISSED (the normalisation accepted any empty span between the last token and the end-of-input span also for errors); caught after end-of-input errors were required to carry the span the input was given"),
+ 'C11e': ('C11', "memoized parser failing on a fresh run after emitting a secondary error or consuming, the failure reaching the root through non-rewinding combinators: Memoized rewinds (truncating emissions / repositioning) where the plain parser does not", ""),
+ 'C12e': ('C12', "parse entered with very little native stack (thread with a small stack, or deep inside user recursion) and a few dozen nesting levels: the first 64 levels skip the stack-growth guard", "initially MISSED (towers ran on 512 KiB and, in a first attempt, 64 KiB stacks, which 64 optimised frames fit into); caught after towers on 24 KiB stacks were added"),
+ 'C13e': ('C13', "with_state parser entered in Check mode (check(), to_slice, ignored ...) whose state is modified during that pass, then the same value used again: the working copy parked in the combinator is only reset in Emit mode", ""),
+ 'C14e': ('C14', "&str input with a non-ASCII character whose low byte is an ASCII letter / digit / _ / CR / LF (e.g. U+0130, U+200D) in ascii::ident, ascii::keyword or newline: Char::to_ascii truncates before testing", ""),
+ 'C15e': ('C15', "a configured repetition whose effective bounds are contradictory (at_least > at_most, e.g. both read from the input) on an input with >= at_most items: next_cfg treats reaching the cap as an item failure, the static parser stops at the cap", "initially MISSED (contradictory bounds were outside every workload); caught after the configured-vs-static differential over every pair of bounds incl. at_least > at_most was added"),
+ 'C16e': ('C16', "an earlier alternative consumed the tree token as an opaque token, went >= 1 outer token further and failed; then the nested parse leaves a pending error: with_input's hand-written merge overwrites an outer error pending further along", "same area as C06e, different edit"),
+ 'C17e': ('C17', "labelled(..).as_context() failing past its first token with a Rich::custom error, then a plain primitive failing strictly further: replace_expected_found keeps the old context (`..self`)", ""),
+ 'C18e': ('C18', "regex() on &str whose match contains a multi-byte character and is followed by more tokens: skip_bytes feeds the inspector `skip` (bytes) tokens instead of the tokens up to the end of the match", "targets the repair 3a35b3d of the defect the API family found"),
+ 'C19e': ('C19', "collect_exactly::<[T; N]> over an iterator that fails right after yielding exactly N items (at_least(k) / exactly(k), k > N) in Emit mode: the extra poll returns early with a fully initialised array that nobody drops", ""),
+ 'C20e': ('C20', "mutual recursion through declare/define where a handle was cloned before its rule was defined and the declared handle is dropped before parsing: the clone is weak, parse panics 'used before being defined'", ""),
 }
 latest = {}
 hist = {}
